@@ -1156,6 +1156,22 @@ class FunctionPlugin(PrimitivePlugin):
 
             # Explicit outputs from inner jaxpr
             child_out_vals = [fscope.ctx.get_value_for_var(v) for v in jpr_f.outvars]
+            # A result that *is* a function input has no producer in the body; ONNX
+            # Runtime refuses a function whose output names one of its inputs, so
+            # such a result is routed through an Identity.
+            for out_idx, out_val in enumerate(child_out_vals):
+                out_producer = getattr(out_val, "producer", None)
+                if callable(out_producer) and out_producer() is not None:
+                    continue
+                routed = fscope.ctx.builder.Identity(
+                    out_val,
+                    _outputs=[fscope.ctx.fresh_name("fn_passthrough")],
+                )
+                if getattr(out_val, "type", None) is not None:
+                    routed.type = out_val.type
+                if getattr(out_val, "shape", None) is not None:
+                    routed.shape = out_val.shape
+                child_out_vals[out_idx] = routed
             fdef = fscope.end(outputs=child_out_vals)
             # Create a native onnx_ir.Function and attach to the PARENT context
             ir_fn = fscope.to_ir_function()
